@@ -43,7 +43,7 @@ def reprOk (inList : Bool) : Ty → Val → Bool
   | .int, .int _ => true
   | .bool, .bool _ => true
   | .float, .float s => floatOk s
-  | .anyList, .any xs => xs.all pvOk
+  | .anyList, .any xs => !(inList && xs.isEmpty) && xs.all pvOk
   | .list t, .list xs => !(inList && xs.isEmpty) && xs.all (reprOk true t)
   | .model fs _ _, .model kvs =>
     decide (kvs.map Prod.fst = fs.map (·.1)) && !(inList && allDefault fs kvs) &&
@@ -138,5 +138,122 @@ def AnySpreadOk (sch : Schema) (lay : Layout) (v : Val) : Bool := anyDeep lay sc
 /-- `Admissible sch lay`: nothing excluded, packed positions within the two-level limit -/
 def Admissible (sch : Schema) (lay : Layout) : Bool :=
   lay.excluded.isEmpty && admTy lay.targets sch.top []
+
+/-! ### the general family (C07 `parse_unparse`) -/
+
+/-- a character that may occur in a header segment -/
+def okChar (c : Char) : Bool :=
+  c != '.' && c != ':' && c != '=' && c != '*' && !pyWs c && c != '{'
+
+/-- a header segment: non-empty, no `.`, `:`, `=`, `*`, `{`, no whitespace -/
+def simpleName (n : Str) : Bool := !n.isEmpty && n.all okChar
+
+/-- the side conditions on the remap dictionaries of a (nested) record type: field names and
+their headers are header segments; `header_name_to_field_name` undoes
+`field_name_to_header_name` on every field; distinct fields have distinct names and
+distinct headers -/
+def remapOk (fs : List Field) (h2f f2h : List (Str × Str)) : Bool :=
+  fs.all (fun f => simpleName f.1 && simpleName (remap f2h f.1) &&
+    decide (remap h2f (remap f2h f.1) = f.1)) &&
+  decide ((fs.map (·.1)).Nodup) && decide ((fs.map fun f => remap f2h f.1).Nodup)
+
+mutual
+/-- the schema family of the general round-trip theorem: ANY nesting of basic types, untyped
+lists, typed lists and records whose remap dictionaries satisfy `remapOk` -/
+def goodTy : Ty → Bool
+  | .str | .int | .float | .bool | .anyList => true
+  | .list t => goodTy t
+  | .model fs h2f f2h => remapOk fs h2f f2h && goodFields fs
+def goodFields : List (Str × Ty × Option Val) → Bool
+  | [] => true
+  | (_, t, _) :: rest => goodTy t && goodFields rest
+end
+
+/-- the types that fit into ONE cell (two-level limit of the cell syntax): basic values, lists
+of basic values, lists of lists of basic values, untyped lists, records of basic fields
+(key/value pairs keyed by FIELD name, so `header_name_to_field_name` must leave the field
+names alone) -/
+def packTy : Ty → Bool
+  | .str | .int | .float | .bool | .anyList => true
+  | .list (.list u) => isBasicTy u
+  | .list t => isBasicTy t
+  | .model fs h2f _ => fs.all (fun f => isBasicTy f.2.1 && decide (remap h2f f.1 = f.1))
+
+mutual
+/-- `LayoutOk`, along the walk of `unparse_row_recurse` over the VALUE (so with the real
+list indices): every position that is written as one cell — matched by a target header, or
+because its field is remapped — has a type that fits one cell; an untyped list that is
+spread holds plain strings only (finding F-C04-d) -/
+def layOk (lay : Layout) : Ty → Val → Str → Bool
+  | ty, v, pfx =>
+    if isBasicTy ty then true
+    else if matchesHeaders pfx lay.targets then packTy ty
+    else match ty, v with
+      | .anyList, .any xs => xs.all isAtom
+      | .list t, .list xs => allIdx (layOk lay t) pfx 1 xs
+      | .model fs _ f2h, .model kvs => layOkFields lay f2h pfx kvs fs
+      | _, _ => true
+def layOkFields (lay : Layout) (f2h : List (Str × Str)) (pfx : Str) (kvs : List (Str × Val)) :
+    List (Str × Ty × Option Val) → Bool
+  | [] => true
+  | (n, t, d) :: rest =>
+    (match alookup n kvs with
+      | none => true
+      | some x =>
+        isDefault d x ||
+          (if remap f2h n = n then layOk lay t x (pfx ++ '.' :: n) else packTy t)) &&
+    layOkFields lay f2h pfx kvs rest
+end
+
+/-- first segment of a dotted header -/
+def headSeg (k : Str) : Str := k.takeWhile (· ≠ '.')
+
+/-- a field together with its value -/
+abbrev SPair := Field × Val
+def nonDefault (p : SPair) : Bool := !isDefault p.1.2.2 p.2
+
+/-- the header segment a field is written under (`field_name_to_header_name`) -/
+def hdr (f2h : List (Str × Str)) (p : SPair) : Str := remap f2h p.1.1
+
+/-- the headers `header_name_to_field_name_with_context` may rewrite -/
+def ctxKeys (sch : Schema) : List Str :=
+  sch.ctxBasic.map Prod.fst ++ (match sch.ctxMain with
+    | some (h, _, _) => [h]
+    | none => [])
+
+/-- the row model itself: field names are distinct header segments, field types in the family -/
+def goodTop : Ty → Bool
+  | .model fs _ _ =>
+    fs.all (fun f => simpleName f.1) && decide ((fs.map (·.1)).Nodup) && goodFields fs
+  | _ => false
+
+/-- `RemapConsistent sch lay v` — the top-level header remaps lead back to the fields, for the
+fields of `v` that are written (non-default): their headers are distinct header segments; a
+field written under its own name is not touched by the context remap (and
+`header_name_to_field_name` keeps it); a field written under a remapped header `m` is found
+again: `header_name_to_field_name_with_context(m, row)` is a header segment that
+`header_name_to_field_name` sends to the field (flow rows: `message_text` ↦ the main argument
+selected by the row's `type` cell). -/
+def RemapConsistent (sch : Schema) (lay : Layout) (v : Val) : Bool :=
+  match sch.top, v with
+  | .model fs h2f f2h, .model kvs =>
+    let nd := (fs.zip (kvs.map Prod.snd)).filter nonDefault
+    match unparseRec lay sch.top v [] [] with
+    | .error _ => false
+    | .ok cells =>
+      decide ((nd.map (hdr f2h)).Nodup) &&
+      nd.all fun p =>
+        let m := remap f2h p.1.1
+        simpleName m &&
+        (if m = p.1.1 then
+          decide (remap h2f p.1.1 = p.1.1) && (ctxKeys sch).all (fun k => headSeg k != p.1.1)
+        else match ctxRemap sch cells m with
+          | .ok pn => simpleName pn && decide (remap h2f pn = p.1.1)
+          | .error _ => false)
+  | _, _ => false
+
+/-- `LayoutOk sch lay v`: nothing excluded, and `layOk` from the root -/
+def LayoutOk (sch : Schema) (lay : Layout) (v : Val) : Bool :=
+  lay.excluded.isEmpty && layOk lay sch.top v []
 
 end Rpft.Row
